@@ -5,6 +5,8 @@ from vlib.common import *
 from vlib import regen
 from checks import c04sql
 from checks import c04filter as cf
+from checks import c04pit
+from checks import c04eval
 
 META = {
     "text": "PARTIAL.  Stage 1 (proved + tied): Lean theorems about Store.replay, the independent fold of a bucket's log entries the property "
@@ -54,7 +56,19 @@ META = {
             "precedence-aware skeleton of the captured WHERE clause; attachment to the unfiltered statement's conjuncts; skeleton($not F) == NOT skeleton(F), "
             "$and/$or likewise, as truth tables) and the Lean driver area filtersem (model fragment == real fragment; Lean reading == Python reading of the "
             "real fragment and of the real WHERE clause; reading == meaning).  "
-            "Still NOT proved / not done: reads_equal_replay (what the Go query builders compute is not modelled), and nothing executes PostgreSQL: "
+            "POINT-IN-TIME READS OF moves: pit_read_pairing = pit_read_by_insertion_date (P1: for every history with distinct metadata keys and non-decreasing log "
+            "dates, every ledger, account, asset and instant t, among the projected rows with insertion_date <= t the one with the greatest seq carries in "
+            "post_commit_volumes the replayed inputs and outputs of the entries inserted by t; Lemmas/StoreSqlPit.lean: the rows' insertion_date is the replayed move's "
+            "(InsRel, kept by every entry), replayed moves are in insertion-date order, clause_pit) + pit_read_by_effective_date (P2: rows effective_date <= t, last by "
+            "(effective_date, seq), post_commit_effective_volumes = replayed volumes by effective date; every history) + pit_mixed_read_witness (kernel-evaluated on "
+            "wPairing, the history of seeded change c04-r4-1: cut on effective_date, latest by seq, post_commit_volumes is NEITHER replayed figure) + "
+            "pit_read_by_insertion_date_needs_ordered_dates; tied to the real SQL twice: checks/c04pit.py reads (date column, keys that pick the row, volumes column) off "
+            "every latest-row read of moves in every captured statement and in the schema functions the point in time is passed to (`_before`, positional or named) and "
+            "accepts P1 and P2 only (pit-pairing); checks/c04eval.py EVALUATES the captured GetAggregatedBalances statements (conditions, DISTINCT ON, ORDER BY, summed "
+            "column read from the text) on the moves rows the regenerated trigger chain projects for generated histories, at instants between insertion and timestamp "
+            "order, with and without an address filter, against an independent fold of the entries inserted by the instant (read-differs-from-replay; model-level rows, "
+            "real statement text).  "
+            "Still NOT proved / not done: reads_equal_replay in general (what the Go query builders compute is not modelled beyond the above), and nothing executes PostgreSQL: "
             "projection_refines_replay is about the Lean translation of the PL/pgSQL under the semantics of Model/Store/Sql.lean; revision DATES of the "
             "history tables and the `date` passed to upsert_account for script metadata (the transaction timestamp, not the log date) are not compared.",
     "note": "Stage 2 rests on Model/Store/Sql.lean, my reading of PostgreSQL (three-valued logic, select-into assigning NULLs when no row is "
@@ -64,6 +78,11 @@ META = {
             "kernel (axioms propext/Classical.choice/Quot.sound at most); Store.replay as the reading of 'the replay of the log'; the Go harness and "
             "its generator; bun's rendering as captured; the little SQL block parser of checks/c04sql.py (fails loudly on shapes it does not know) "
             "and its rule that a row joined by its foreign key <t>_seq to the primary key seq of a ledger-restricted row is itself restricted; "
+            "PIT PAIRING: checks/c04pit.py is syntactic (a block over the base table moves with `order by … limit 1` or `distinct on`; the conjunct comparing a date column "
+            "with the PIT literal / `_before`; the volumes column of the select list, or the one the rest of the statement reads when the block returns *) and refuses shapes it "
+            "does not know; not judged, reported in the evidence: latest-row reads under a PIT that are not cut at it (the balance filter of the accounts listing) and the "
+            "mixed readings of get_account_balance / aggregate_ledger_volumes, which no captured statement passes a point in time (design 6 #22); checks/c04eval.py's "
+            "interpreter knows the one statement shape GetAggregatedBalances emits.  "
             "FILTERS: the boolean reading of NOT / AND / OR precedence (Lean boolParse and, independently, checks/c04filter.py) is my model of "
             "PostgreSQL's grammar; atomic conditions are opaque (what `sources @> '[\"bank\"]'` selects is not modelled); the theorem speaks about the "
             "scanner's tokens piece by piece, that they are the tokens of the text scanned as a whole is checked by the driver on every captured case, not proved.",
@@ -310,6 +329,84 @@ def check_read_sql(ctx, inputs, impl, ledger_funcs):
                                   "%s calls %s without passing the store's ledger as first argument" % (m, c["func"]),
                                   {"area": "readsql", "input": inp, "observed": {"sql": q}})
     return st, hows, methods
+
+
+# ---------------------------------------------------------------- captured read SQL: what a point-in-time read of `moves` computes
+
+PIT_WANT = {   # (method, volumes column) that the lattice must have captured under a point in time, for the obligation to mean something
+    ("GetAggregatedBalances", "post_commit_volumes"),
+    ("GetAccountsWithVolumes", "post_commit_volumes"), ("GetAccountsWithVolumes", "post_commit_effective_volumes"),
+    ("GetAccountWithVolumes", "post_commit_volumes"), ("GetAccountWithVolumes", "post_commit_effective_volumes"),
+}
+
+
+def check_pit_pairing(ctx, inputs, impl, fns, ledger_funcs):
+    """checks/c04pit.py on every captured statement: every latest-row read of `moves` — in the statement or in a schema function it
+    calls, the point in time following the `_before` arguments — must cut, order and read by ONE of the two orders a row's totals
+    are kept in (C04.pit_read_pairing)."""
+    pp = c04pit.PitPairing(fns, ledger_funcs)
+    st = collections.Counter()
+    triples = collections.Counter()
+    unfiltered = collections.Counter()
+    reached, seen_pit = set(), set()
+    for inp in inputs:
+        out = impl.get(inp["id"])
+        m = inp["method"]
+        if out is None or "panic" in out or m == "InsertLogs":
+            continue
+        has_pit = inp.get("pit") is not None
+        for q in out["sql"]:
+            if q.startswith("PREPARE ") or q == "ARGS-REACHED-DRIVER" or q.startswith("EXEC "):
+                continue
+            low = q.lower()
+            if "moves" not in low and "get_" not in low and "aggregate_" not in low:
+                continue
+            st["statements_looked_at"] += 1
+            try:
+                reads = pp.statement(q, has_pit, inp["ledger"])
+            except c04sql.SqlShapeError as e:
+                ctx.l2_broken.append({"stream": "readsql-pit-shape", "id": inp["id"], "input": inp, "impl": q, "detail": str(e)})
+                continue
+            for r in reads:
+                st["latest_row_reads"] += 1
+                if r["pit_bound"]:
+                    st["latest_row_reads_under_a_point_in_time"] += 1
+                for f in r["via"]:
+                    reached.add((f, r["pit_bound"]))
+                key = "%s | %s | cut on %s | latest by (%s) | reads %s" % (
+                    m, "/".join(r["via"]) or "query", ", ".join("%s %s PIT" % tuple(d) for d in r["date"]) if r["pit_bound"] and r["date"] else
+                    ("no point in time" if not r["pit_bound"] else "NOT CUT"), ", ".join(r["row_picked_by"]), r["volumes_column"])
+                triples[key] += 1
+                if r["pit_bound"] and r["verdict"] == "sound" and r["volumes_column"]:
+                    seen_pit.add((m, r["volumes_column"]))
+                if r["verdict"] == "no-pit-predicate":
+                    unfiltered["%s %s" % (m, "filter on balance" if "balance_from_volumes" in low else "?")] += 1
+                    continue
+                if r["verdict"] != "unsound":
+                    continue
+                where = "its own SQL" if not r["via"] else "schema function %s (reached through %s)" % (r["site"], " -> ".join(r["via"]))
+                ctx.violation({"property": "C04", "class": "pit-pairing", "method": m, "site": r["site"]},
+                              "%s%s, %s: a row of moves is picked per account and asset — rows cut on %s, the latest by (%s), column %s — %s.  Sound are only: "
+                              "insertion_date <= PIT / latest by seq / post_commit_volumes, and effective_date <= PIT / latest by (effective_date, seq) / "
+                              "post_commit_effective_volumes (C04.pit_read_pairing; the mixed read differs from both replayed figures on C04.wPairing)" % (
+                                  m, " at a point in time" if r["pit_bound"] else "", where,
+                                  ", ".join("%s %s PIT" % tuple(d) for d in r["date"]) or "nothing", ", ".join(r["row_picked_by"]) or "nothing",
+                                  r["volumes_column"], r["why"]),
+                              {"area": "readsql", "input": {k: v for k, v in inp.items() if k != "corpus"},
+                               "observed": {"sql": q, "read": r, "function_body": fns[r["site"]]["body"] if r["site"] in fns else None,
+                                            "sound_pairings": c04pit.SOUND}})
+    if not ctx.replay_file and PIT_WANT - seen_pit:
+        ctx.l2_broken.append({"stream": "readsql-pit-pairing-coverage", "detail": "no sound point-in-time read captured for %s" % sorted(PIT_WANT - seen_pit)})
+    return {
+        "statements_looked_at": st["statements_looked_at"], "latest_row_reads_of_moves": st["latest_row_reads"],
+        "of_which_under_a_point_in_time": st["latest_row_reads_under_a_point_in_time"],
+        "reads (method | where | date cut | order | volumes column)": dict(sorted(triples.items())),
+        "sound_pairings": c04pit.SOUND,
+        "OBSERVATION latest-row reads of moves for a request WITH a point in time that are NOT cut at it (not judged by the pairing: the balance "
+        "filter of the accounts listing compares the CURRENT balance, also when the listing is as of a past instant)": dict(sorted(unfiltered.items())),
+        "LATENT schema functions whose _before reading is not one of the sound pairings; no captured statement passes them a point in time "
+        "(DESIGN 6 #22)": pp.latent(reached),
+    }
 
 
 # ---------------------------------------------------------------- captured read SQL: the WHERE clause built for a filter MEANS the filter
@@ -784,6 +881,126 @@ def stage2(ctx, sv_inputs, sv_seen):
     return len(inputs or [])
 
 
+# ---------------------------------------------------------------- stage 2h: the captured aggregated-balances statement, evaluated
+
+READEVAL_NOTE = ("the statement is the text the REAL ledgerstore.Store.GetAggregatedBalances sent for this ledger, point in time and filter (recording driver); "
+                 "the rows of moves are those the Lean translation of 0-init-schema.sql (Generated/Schema.lean, semantics of Model/Store/Sql.lean) holds after the "
+                 "history — PostgreSQL cannot be run here; checks/c04eval.py interprets the statement (conditions, DISTINCT ON, ORDER BY and the volumes column are read "
+                 "from the text).  Re-run: bin/check C04 --replay <this file>")
+
+
+def stage_reads(ctx, sv_inputs, sv_seen):
+    """GetAggregatedBalances as of an instant == the replay of the entries inserted by that instant, on generated histories: real statement
+    text x projected rows, at instants that fall between insertion order and timestamp order."""
+    if ctx.replay_file:
+        rp = json.load(open(ctx.replay_file))["replay"]
+        if rp.get("area") != "readeval":
+            return None
+        hist = [dict(rp["input"], id=0)]
+        only = (rp["ledger"], rp["pit"], rp.get("address"))
+    else:
+        if sv_inputs is None:
+            return None
+        only = None
+        cap = 150 if ctx.quick else 1000
+        cands = []
+        for i in sv_inputs:
+            if any(l.get("tx", {}).get("tz") for l in i["logs"]):
+                continue      # the offset half of design 6 #25 has its own obligations; here every timestamp is the instant
+            if not any("tx" in l for l in i["logs"]):
+                continue
+            skew = sum(1 for l in i["logs"] if "tx" in l and l["tx"]["timestamp"] != l["date"])
+            cands.append((0 if i.get("corpus") else 1, -min(skew, 3), i["id"], i))
+        cands.sort(key=lambda x: x[:3])
+        hist = [with_stored_offsets(c[3], sv_seen) for c in cands[:cap]]
+    if not hist:
+        return None
+    inf, outf = ctx.path("storesql-moves.in.jsonl"), ctx.path("storesql-moves.model.jsonl")
+    write_jsonl(inf, hist)
+    p = run_driver_sql("storesql-moves", inf, outf)
+    if p.returncode != 0:
+        ctx.l2_broken.append({"stream": "storesql-moves-driver", "detail": (p.stdout + p.stderr)[-2000:]})
+        return None
+    rows_of = {r["id"]: r["out"] for r in read_jsonl(outf)}
+    cases, st = [], collections.Counter()
+    for h in hist:
+        ro = rows_of.get(h["id"])
+        if ro is None or "driver_error" in ro:
+            ctx.l2_broken.append({"stream": "storesql-moves-driver-error", "id": h["id"], "model": ro})
+            continue
+        for ledger in h["ledgers"]:
+            if not c04eval.monotone(h["logs"], ledger):
+                st["ledgers_skipped (log dates decrease: the instant does not cut the log at a prefix; the commander dates entries in order)"] += 1
+                continue
+            accts = []
+            for l in h["logs"]:
+                if l["ledger"] == ledger and "tx" in l:
+                    for q in l["tx"]["postings"]:
+                        for a in (q["source"], q["destination"]):
+                            if a not in accts and re.fullmatch(r"[a-zA-Z0-9_:]+", a):
+                                accts.append(a)
+            for t in c04eval.instants(h["logs"], ledger, 6 if ctx.quick else 10):
+                for a in [None] + accts[:2 if ctx.quick else 4]:
+                    if only and (ledger, t, a) != tuple(only):
+                        continue
+                    cases.append({"id": len(cases), "method": "GetAggregatedBalances", "ledger": ledger, "pit": t, "vol": False, "eff": False, "arg": "",
+                                  "filter": "" if a is None else json.dumps({"$match": {"address": a}}), "_h": h["id"], "_a": a})
+    if not cases:
+        return None
+    by_h = {h["id"]: h for h in hist}
+    inf, outf = ctx.path("readeval.in.jsonl"), ctx.path("readeval.impl.jsonl")
+    write_jsonl(inf, [{k: v for k, v in c.items() if not k.startswith("_")} for c in cases])
+    p = run_harness(["readsql", "exec", "-in", inf, "-out", outf])
+    if p.returncode != 0:
+        ctx.l2_broken.append({"stream": "readeval-exec", "detail": (p.stdout + p.stderr)[-2000:]})
+        return None
+    impl = {r["id"]: r["out"] for r in read_jsonl(outf)}
+    plans = collections.Counter()
+    for c in cases:
+        out = impl.get(c["id"]) or {}
+        stmts = [q for q in out.get("sql", []) if not q.startswith("PREPARE ")]
+        if out.get("err") or len(stmts) != 1:
+            ctx.l2_broken.append({"stream": "readeval-capture", "id": c["id"], "input": c, "impl": out})
+            continue
+        sql, h, ledger, t, a = stmts[0], by_h[c["_h"]], c["ledger"], c["pit"], c["_a"]
+        try:
+            plan = c04eval.plan_of(sql, ledger)
+        except c04sql.SqlShapeError as e:
+            ctx.l2_broken.append({"stream": "readeval-shape", "id": c["id"], "input": c, "impl": sql, "detail": str(e)})
+            continue
+        plans["cut on %s | distinct on (%s) | picked by (%s) | sums %s" % (
+            ", ".join("%s %s" % (x[0], x[1]) for x in plan["conditions"] if x[0] in c04eval.DATE_COLS) or "nothing",
+            ", ".join(plan["distinct_on"]), ", ".join(k + (" desc" if d else " asc") for k, d in plan["picked_by"]), plan["volumes_column"])] += 1
+        got, kept = c04eval.evaluate(plan, rows_of[h["id"]]["moves"])
+        want = c04eval.fold(h["logs"], ledger, lambda l, tx: l["date"] <= t, a)
+        st["statements_evaluated"] += 1
+        st["with_an_address_filter"] += 1 if a is not None else 0
+        split = any(("tx" in l) and l["ledger"] == ledger and ((l["date"] <= t) != (l["tx"]["timestamp"] <= t)) for l in h["logs"])
+        st["at_an_instant_between_insertion_and_timestamp_order"] += 1 if split else 0
+        st["non_empty_answers"] += 1 if want else 0
+        hist_in = {k: v for k, v in h.items() if k not in ("corpus", "id")}
+        rep = {"area": "readeval", "input": hist_in, "ledger": ledger, "pit": t, "address": a, "model_level_rows": True, "note": READEVAL_NOTE,
+               "observed": {"sql": sql, "read_as": plan, "rows_of_moves_kept": kept, "reported": got,
+                            "replay_of_the_entries_inserted_by_the_instant": want,
+                            "for information, the fold of the entries DATED by the instant": c04eval.fold(h["logs"], ledger, lambda l, tx: tx["timestamp"] <= t, a)}}
+        if canon(got) != canon(want):
+            ctx.violation({"property": "C04", "class": "read-differs-from-replay", "method": "GetAggregatedBalances", "filter": "address" if a else "none",
+                           "level": "model"},
+                          "GetAggregatedBalances of ledger %s at %d%s: the statement sent, evaluated on the projected moves, reports %s; the replay of the log entries "
+                          "inserted by that instant gives %s" % (ledger, t, " (address %s)" % a if a else "", canon(got), canon(want)), rep)
+        elif a is None:
+            for asset, v in got.items():
+                if v is not None and v[0] != v[1]:
+                    ctx.violation({"property": "C04", "class": "conservation", "store": "sql-read", "method": "GetAggregatedBalances", "level": "model"},
+                                  "GetAggregatedBalances of ledger %s at %d over all accounts: inputs of %s (%s) differ from its outputs (%s)" % (ledger, t, asset, v[0], v[1]), rep)
+    ctx.cov["evaluations"] = ctx.cov.get("evaluations", 0) + st["statements_evaluated"]
+    return {"histories": len(hist), "statements_captured_and_evaluated": st["statements_evaluated"], "detail": dict(st),
+            "plans_read_from_the_text": dict(plans),
+            "rule": "histories of the storeview run without UTC offsets, those with back- / future-dated transactions first; per ledger with non-decreasing log dates: "
+                    "the instants (log dates, timestamps, midpoints, the microsecond before the first) on which insertion order and timestamp order disagree first; "
+                    "no filter and an exact-address filter per account"}
+
+
 # ---------------------------------------------------------------- the check
 
 
@@ -795,6 +1012,8 @@ def run(ctx):
         "harness/storeview.go (generator, one real storage.InMemoryStore per ledger) and harness/readsql.go (real ledgerstore.Store over bun + pgdialect + recording driver)",
         "checks/c04sql.py: block parser for the captured SELECT/WITH statements; rule: ledger = L, or foreign-key/primary-key join (accounts_seq / transactions_seq / seq) to a restricted row",
         "checks/c20.py tokenize(): PostgreSQL tokenizer shared with C20",
+        "checks/c04pit.py (which block is a latest-row read of moves, its date conjunct, picking keys and volumes column; `_before` followed through function calls) and "
+        "checks/c04eval.py (interpreter of the GetAggregatedBalances statement shape over rows projected by the Lean translation of the triggers)",
         "bun 1.1.16 rendering as captured; SQL is never executed (no PostgreSQL in the sandbox)",
         "FILTERS: lean/Model/Store/FilterSem.lean boolParse and checks/c04filter.py skeleton(): two independent readings of SQL operator precedence "
         "(parentheses, NOT > AND > OR, everything else an opaque atom; `is not null` / `not in` / BETWEEN / CASE at depth 0 are refused) - my model of "
@@ -862,11 +1081,13 @@ def run(ctx):
         st, hows, methods = check_read_sql(ctx, inputs, impl, ledger_funcs)
         rs_eval = st["statements"]
         fstruct = check_filter_structure(ctx, inputs, impl, have_driver)
+        pitpair = check_pit_pairing(ctx, inputs, impl, fns, ledger_funcs)
         ctx.cov["readsql"] = {
             "cases": len(inputs), "statements_analysed": st["statements"], "table_references": st["table-references"],
             "ledger_function_calls": st["ledger-function-calls"], "copy_rows_checked": st["copy-rows"],
             "statements_by_method": dict(sorted(methods.items())), "restriction_kinds": dict(sorted(hows.items())),
             "filter_structure": fstruct,
+            "pit_pairing": pitpair,
             "lattice": "method x PIT(absent, zero instant, a date) x expandVolumes x expandEffectiveVolumes x filters "
                        "(accounts: address exact/segments, metadata[k], balance[asset], balance, and/or/not; transactions: reference, timestamp, "
                        "account, source, destination (exact/segments), metadata[k], or/and/not; aggregated balances: address, metadata[k]; logs: date) "
@@ -889,6 +1110,8 @@ def run(ctx):
     # ---------------- stage 2: the generated PL/pgSQL projection (model level)
     n2 = stage2(ctx, sv_inputs, sv_seen) or 0
     ctx.cov["evaluations"] += n2
+    if "driver_sql-build" not in [b.get("stream") for b in ctx.l2_broken]:
+        ctx.cov["aggregated_balances_evaluated"] = stage_reads(ctx, sv_inputs, sv_seen)
     ctx.cov["distinct_nontrivial"] = ctx.cov.get("storeview", {}).get("distinct_nontrivial", 0) + rs_eval
     ctx.cov["rule"] = ("storeview: random bucket histories (1-3 ledgers, <= %d log entries, NEW_TRANSACTION with back-/future-/equal-dated "
                        "timestamps, self-postings, 2^64+-1 and 2^70 amounts, REVERTED_TRANSACTION, SET/DELETE_METADATA on accounts and transactions, "
@@ -907,6 +1130,9 @@ def run(ctx):
                                    "run and on the enumeration to depth 3/4 (all satisfy the hypothesis), and the older kernel evaluations (<= 2 entries, one rich example)",
         "2g read functions / read queries": "get_account_balance(_before) transcribed by hand: latent defect witnessed; the Go query builders are NOT modelled "
                                             "(no render/eval model, reads_equal_replay not stated)",
+        "2h point-in-time reads of moves": "proved: the two sound pairings of date column / row order / volumes column (pit_read_pairing) + witness against mixing them; "
+                                           "tied: pit-pairing obligation on every captured statement and the schema functions it calls (checks/c04pit.py); captured "
+                                           "GetAggregatedBalances statements evaluated on projected rows against the replay (checks/c04eval.py)",
     }
     ctx.cov["search"] = ("the generated histories of this run on the real in-memory store (every probe compared with an independent fold); the SQL text of every read "
                          "method on the parameter lattice; the same histories and every history of <= %d entries over the alphabet of lean/Model/Store/Search.lean run "
